@@ -1,2 +1,3 @@
 -- Root of the `PlasVerif` library: every property file (they import their models, specs and proofs).
+import PlasVerif.Properties.C01
 import PlasVerif.Properties.C19
